@@ -805,10 +805,13 @@ static RunResult run_preempt(const Plan& p, const RunOpts& o) {
     std::vector<int> prio(nt); for (int k = 0; k < nt; ++k) prio[k] = (int)srng.below(1000) + 1000;
     u64 sched_h = 0xcbf29ce484222325ull;
     u64 total_quanta = 0;
+    u64 all_blocked_rounds = 0;
     for (;;) {
-        std::vector<int> runnable;
-        for (int k = 0; k < nt; ++k) if (!conc[k].done) runnable.push_back(k);
+        std::vector<int> runnable, unblocked;
+        for (int k = 0; k < nt; ++k) if (!conc[k].done) { runnable.push_back(k); if (!tasks[k].blocked) unblocked.push_back(k); }
         if (runnable.empty()) break;
+        if (!unblocked.empty()) runnable = unblocked; else { if (++all_blocked_rounds > 100000) { r.v.found = true; r.v.prop = p.prop; r.v.oracle = "liveness"; r.v.cls = "deadlock"; r.v.msg = "every task waits for a lock of the library held by another task"; break; } }
+        for (int k = 0; k < nt; ++k) tasks[k].blocked = false;      // a waiting task retries once somebody else has run
         Quantum q;
         if (qi < p.sched.size()) { q = p.sched[qi++]; q.task = runnable[(size_t)q.task % runnable.size()]; if (!q.edges) q.edges = 1; }
         else if (!p.sched.empty() || strategy < 0) { q.task = runnable[0]; q.edges = 1u << 30; }
@@ -851,6 +854,7 @@ static RunResult run_preempt(const Plan& p, const RunOpts& o) {
     r.sched_hash = sched_h;
     r.st.add("quanta", total_quanta);
     r.st.add("shared_stores", E.shared_stores);
+    if (E.under_lock_accesses) { r.st.add("mon_accesses_under_lock", E.under_lock_accesses); E.under_lock_accesses = 0; }
     for (int k = 0; k < nt; ++k) for (auto& rc : conc[k].recs) {
         log.line(strf("T%d ", k) + rc.str());
         if (!rc.skipped && rc.done) { r.ops_run++; r.st.add(std::string("op_") + OP_NAMES[rc.op.kind]); if (rc.status >= 0) r.st.add(strf("status_%s_%s", OP_NAMES[rc.op.kind], status_name(rc.status))); }
@@ -898,7 +902,7 @@ RunResult run_plan(const Plan& p, const RunOpts& o) {
     cleanup_pages();
     E.cur_gen = -1; E.cur_opt = 0; E.fill = 0; E.fill_seed = 0; E.kdf_mode = 0; E.monitor = false; E.norm_full_len = false;
     E.stats.c.clear();
-    for (int ti = 0; ti < ntasks; ++ti) memset(tasks[ti].slots, 0, sizeof tasks[ti].slots);
+    for (int ti = 0; ti < ntasks; ++ti) { memset(tasks[ti].slots, 0, sizeof tasks[ti].slots); tasks[ti].locks_held = 0; tasks[ti].blocked = false; }
     RunResult r = (p.mode == "preempt") ? run_preempt(p, o) : run_ops(p, o);
     if (r.v.found && r.v.prop.empty()) r.v.prop = p.prop;
     fold_seam_counts(r);
